@@ -464,7 +464,7 @@ func c03Reference(op string, l, r c03Type) (accept, ok bool) {
 
 // genCheckerPointer: `#` is typed by the innermost collection (contract of checker.visitor.PointerNode).
 func genCheckerPointer(w *World, res *CheckResult) {
-	for _, n := range []string{"checker.visitor.PointerNode", "checker.indexType", "checker.visitor.checkFunc", "checker.visitor.BuiltinNode", "checker.fieldType", "checker.Check", "conf.FieldsFromStruct", "checker.dereference", "checker.visitor.FunctionNode"} {
+	for _, n := range []string{"checker.visitor.PointerNode", "checker.indexType", "checker.visitor.checkFunc", "checker.visitor.BuiltinNode", "checker.fieldType", "checker.Check", "conf.FieldsFromStruct", "conf.CreateTypesTable", "checker.dereference", "checker.visitor.FunctionNode"} {
 		f2, ct := w.Func(n), w.Contracts[n]
 		if f2 == nil || ct == nil {
 			res.Obls = append(res.Obls, missingObl(n+"/exists", "function or contract missing"))
@@ -477,7 +477,7 @@ func genCheckerPointer(w *World, res *CheckResult) {
 			delete(w.forceInline, n)
 			w.forceInline["checker.dereference"] = true
 		}
-		if n == "conf.FieldsFromStruct" {
+		if n == "conf.FieldsFromStruct" || n == "conf.CreateTypesTable" {
 			delete(w.forceInline, n)
 		}
 		e2.VerifyFunc(f2, ct, nil)
